@@ -9,6 +9,7 @@ Input : {"ids": [...], "mode": "nrt", "cases": [case, ...]}
           body ops : yn v (yield v/8) | yv v (yield 's<v>') | ret | raise | yar v | alw v
                      next|stop|pause|resume|reset|play t | wait t | signal|unhang t | settest t v
                      fget t | fset t v | embed t (yield from t.__embed__())
+                     try .. except .. endx (except BaseException) | try .. finally .. endf  (nestable)
         external  : next t v (v = 0: no inval, else inval v/8) | play|pause|resume|stop|reset t
                     signal|unhang t | settest t v | fset t v | tick (pop one task of the NRT scheduler
                     and wake it: the body of ClockScheduler.run's loop)
@@ -102,12 +103,16 @@ def run_case(case, mode):
             return None
         raise AssertionError(op)
 
-    def result(fn):
+    def result(fn, reraise=False):
+        """call -> recorded result; nothing keeps the exception object (its traceback holds frames) alive"""
         try:
             x, v = val(fn())
-            return {'k': 'ret', 'x': x, 'v': v}, None
+            return {'k': 'ret', 'x': x, 'v': v}
         except BaseException as ex:
-            return {'k': 'exc', 'x': type(ex).__name__, 'v': 0}, ex
+            if reraise:
+                L(*reraise, 'exc', type(ex).__name__, 0)
+                raise
+            return {'k': 'exc', 'x': type(ex).__name__, 'v': 0}
 
     def start(r, inval, first):
         x, v = val(inval)
@@ -124,58 +129,78 @@ def run_case(case, mode):
             raise stm.YieldAndReset(ins['v'] / 8.0)
         if op == 'alw':
             raise stm.AlwaysYield(ins['v'] / 8.0)
-        res, ex = result(lambda: api(op, ins['t'], ins['v']))
+        res = result(lambda: api(op, ins['t'], ins['v']), reraise=None if ins['c'] else (r, i, 'call'))
         L(r, i, 'call', res['k'], res['x'], res['v'])
-        if ex is not None and not ins['c']:
-            raise ex
         return False
 
-    GEN = '''
-def body(HEADER):
-    start(r, INVAL, FIRST)
-    for i, ins in enumerate(code, 1):
-        op = ins['op']
-        if op == 'yn':
-            got = yield ins['v'] / 8.0
-        elif op == 'yv':
-            got = yield 's%d' % ins['v']
-        elif op == 'wait':
-            got = yield from conds[ins['t']].wait()
-        elif op == 'embed':
-            got = yield from routines[ins['t']].__embed__()
-        elif op == 'fget':
-            got = yield from flows[ins['t']].value
-            x, v = val(got)
-            L(r, i + 1, 'fval', 'ret', x, v)
-            continue
-        else:
-            if simple(r, i, ins):
-                return
-            continue
+    def resume(r, pc, got):
         x, v = val(got)
-        L(r, i + 1, 'resume', 'ret', x, v)
-'''
-    PLAIN = '''
-def body(HEADER):
-    start(r, INVAL, FIRST)
-    for i, ins in enumerate(code, 1):
-        if simple(r, i, ins):
-            return
-'''
+        L(r, pc, 'resume', 'ret', x, v)
 
-    def make(r, p):
-        src = PLAIN if p['plain'] else GEN
-        if p['inv']:
-            src = src.replace('HEADER', 'inval').replace('INVAL', 'inval').replace('FIRST', 'True')
-        else:
-            src = src.replace('HEADER', '').replace('INVAL', 'None').replace('FIRST', 'False')
-        env = dict(r=r, code=p['code'], start=start, simple=simple, conds=conds, flows=flows, routines=routines,
-                   val=val, L=L)
-        exec(src, env)
+    def fval(r, pc, got):
+        x, v = val(got)
+        L(r, pc, 'fval', 'ret', x, v)
+
+    def caught(r, pc, ex):
+        L(r, pc, 'caught', 'exc', type(ex).__name__, 0)
+
+    def fin(r, pc):
+        L(r, pc, 'fin', 'ret', 'none', 0)
+
+    def compile_body(r, p):
+        """script -> source of a real Python function: straight-line statements, one per instruction, with real
+        try / except BaseException / finally blocks (so that generator close / finalisation behaves as in any
+        user routine); a generator function unless the body is plain."""
+        code = p['code']
+        out = ['def body(%s):' % ('inval' if p['inv'] else ''),
+               '    start(r, %s, %s)' % (('inval', 'True') if p['inv'] else ('None', 'False'))]
+        ind = 1
+
+        def emit(line):
+            out.append('    ' * ind + line)
+
+        for i, ins in enumerate(code, 1):
+            op = ins['op']
+            if op == 'try':
+                emit('try:')
+                ind += 1
+                emit('pass')
+            elif op == 'except':
+                ind -= 1
+                emit('except BaseException as _e:')
+                ind += 1
+                emit('caught(r, %d, _e)' % i)
+            elif op == 'finally':
+                ind -= 1
+                emit('finally:')
+                ind += 1
+                emit('fin(r, %d)' % i)
+            elif op in ('endx', 'endf'):
+                ind -= 1
+            elif op == 'yn':
+                emit('resume(r, %d, (yield %r))' % (i + 1, ins['v'] / 8.0))
+            elif op == 'yv':
+                emit('resume(r, %d, (yield %r))' % (i + 1, 's%d' % ins['v']))
+            elif op == 'wait':
+                emit('resume(r, %d, (yield from conds[%r].wait()))' % (i + 1, ins['t']))
+            elif op == 'embed':
+                emit('resume(r, %d, (yield from routines[%r].__embed__()))' % (i + 1, ins['t']))
+            elif op == 'fget':
+                emit('fval(r, %d, (yield from flows[%r].value))' % (i + 1, ins['t']))
+            else:
+                emit('if simple(r, %d, code[%d]): return' % (i, i - 1))
+        assert ind == 1, 'unbalanced try blocks'
+        if not p['plain'] and not any(l.lstrip().startswith(('resume(', 'fval(')) for l in out):
+            out.append('    return')
+            out.append('    yield')
+        src = '\n'.join(out) + '\n'
+        env = dict(r=r, code=code, start=start, simple=simple, conds=conds, flows=flows, routines=routines,
+                   resume=resume, fval=fval, caught=caught, fin=fin)
+        exec(compile(src, '<body %s>' % r, 'exec'), env)
         return env['body']
 
     for r in sorted(case['prog']):
-        routines[r] = stm.Routine(make(r, case['prog'][r]))
+        routines[r] = stm.Routine(compile_body(r, case['prog'][r]))
         names[id(routines[r])] = r
     for c in case['conds']:
         conds[c] = stm.Condition()
@@ -193,11 +218,11 @@ def body(HEADER):
                 res = {'k': 'ret', 'x': 'empty', 'v': 0}
             else:
                 tm, ct = sched.queue.pop()
-                res, _ = result(lambda: ct._wakeup(tm))
+                res = result(lambda: ct._wakeup(tm))
         elif op == 'next':
-            res, _ = result(lambda: api(op, t, v, None if v == 0 else v / 8.0))
+            res = result(lambda: api(op, t, v, None if v == 0 else v / 8.0))
         else:
-            res, _ = result(lambda: api(op, t, v))
+            res = result(lambda: api(op, t, v))
         c, _s = cur_secs()
         ms = num8(main.main_tt._m_seconds)
         events.append({
@@ -207,6 +232,12 @@ def body(HEADER):
             'w': {c_: [tname(x) for x in conds[c_]._waiting_threads] for c_ in conds},
             'q': [[num8(tm) if num8(tm) is not None else -2, tname(ct.task)] for tm, ct in sched.queue],
             'log': list(log)})
+    del log[:]
+    for rt in list(routines.values()):      # end the bodies now (not at some later collection); not recorded
+        try:
+            rt.stop()
+        except BaseException:
+            pass
     return events
 
 
@@ -218,6 +249,7 @@ def main_():
     import logging
     logging.disable(logging.CRITICAL)
     sys.setrecursionlimit(400)
+    sys.unraisablehook = lambda *_: None     # errors of abandoned generators' clean-up code are ignored by Python
     out = []
     for i, case in zip(inp['ids'], inp['cases']):
         out.append({'id': i, 'prog': case['prog'], 'conds': case['conds'], 'flows': case['flows'],
